@@ -71,7 +71,7 @@ theorem typeNameOf_rel (dts : List DataType) (b : Nat) (n : String) :
 
 /-- the declared class elements, relationally: exactly the classes whose containment chain reaches the component -/
 theorem xsd_classes_rel {d : ClassDiagram} (tree : TreeOk d.containers) (comp : Nat) (xc : XClass) :
-    xc ∈ (xsdSpec d comp).classes ↔ ∃ c ∈ d.classes, Reaches d.containers comp c.parent ∧ xc = xclassOf d c := by
+    xc ∈ (xsdSpec d comp).classes ↔ ∃ c ∈ d.classes, Reaches d.containers comp c.parent ∧ xc = xclassAll d c := by
   simp only [xsdSpec, List.mem_map, List.mem_filter]
   constructor
   · rintro ⟨c, ⟨hc, hs⟩, rfl⟩
